@@ -60,12 +60,15 @@ def run_matrices(ctx):
     ns = list(range(1, 15)) + [20, 40]
     if ctx.tier == 'thorough':
         ns = list(range(1, 31)) + [40, 64]
-    ds = [1, 2, 3, 4] if ctx.tier == 'quick' else [1, 2, 3, 4, 5, 6]
+    # difference orders up to 8: the entries of D D' grow like binomial(2d, d) (order 5: 252, order 8: 12870)
+    ds = [1, 2, 3, 4, 5, 6, 8] if ctx.tier == 'quick' else [1, 2, 3, 4, 5, 6, 7, 8, 10]
+    ds_per = [1, 2, 3, 4] if ctx.tier == 'quick' else [1, 2, 3, 4, 5, 6]     # the (n, d) grid of the recorded periodic finding
     cases = []
     for n in ns:
         for d in ds:
             cases.append(('derivative', n, d))
-            cases.append(('periodic', n, d))
+            if d in ds_per:
+                cases.append(('periodic', n, d))
         cases.append(('l2', n, 0))
         cases.append(('none', n, 0))
     ops = []
